@@ -43,6 +43,9 @@ func c17Alphabet() []cop {
 		add("inst-P1", kit.Reg{Life: sg, Kind: "instance", Outs: []kit.Out{{T: "P1"}}}),
 		add("bad-name+group", kit.Reg{Life: sg, Outs: []kit.Out{{T: "P2"}}, Name: "k", Group: "g"}),
 		add("bad-backquote", kit.Reg{Life: sg, Outs: []kit.Out{{T: "P2"}}, Name: "a`b"}),
+		// rejected for a reason found only at a LATER output: a reserved type as second return of a grouped registration
+		add("bad-(P2,scope)[g]", kit.Reg{Life: sg, Outs: []kit.Out{{T: "P2"}, {T: "scope"}}, Group: "g"}),
+		add("bad-out{P0[g],ctx[g]}", kit.Reg{Life: sg, ResObj: true, Outs: []kit.Out{{T: "P0", Group: "g"}, {T: "ctx", Group: "g"}}}),
 		{Kind: "remove", T: "P0", Name: "Remove(P0)"},
 		{Kind: "remove", T: "P1", Name: "Remove(P1)"},
 		{Kind: "remove", T: "IA", Name: "Remove(IA)"},
@@ -334,11 +337,29 @@ func c17RunHistory(h []cop, post *cop, withBuild bool) []Finding {
 
 // c17Churn is a reduced alphabet searched deeper: plain / keyed / grouped registrations of one type
 // interleaved with removals (group members, whose internal keys are positions, around removals).
-var c17Churn = []int{0, 3, 2, 4, 17, 18, 20}
+var c17Churn = c17Idx("P0", "P0[g]", "P0@k", "P1", "Remove(P0)", "Remove(P1)", "RemoveKeyed(P0,k)")
+
+// c17Idx maps operation names to their positions in the alphabet.
+func c17Idx(names ...string) []int {
+	var out []int
+	for _, n := range names {
+		found := false
+		for i, o := range c17Alphabet() {
+			if o.Name == n {
+				out = append(out, i)
+				found = true
+			}
+		}
+		if !found {
+			panic("c17: unknown operation " + n)
+		}
+	}
+	return out
+}
 
 func c17Search(r *mc.Report, depth int, first int, subset ...int) {
 	alpha := c17Alphabet()
-	posts := []int{0, 4, 9, 17, 18, 3}
+	posts := c17Idx("P0", "P1", "D0-as-IA", "Remove(P0)", "Remove(P1)", "P0[g]")
 	if len(subset) > 0 {
 		full := alpha
 		alpha = nil
@@ -408,7 +429,7 @@ var _ = reflect.TypeOf
 func init() {
 	mc.Register(&mc.Check{
 		Prop:   "C17",
-		Rule:   "every sequence to depth 3 (quick) / 4 (thorough) over a 23-operation alphabet {Add{Singleton,Scoped,Transient} of 17 forms (incl. registrations that collide with themselves) over a 6-type pool (plain, keyed, grouped, two-return colliding / not colliding, result objects colliding at their second field, aliases, instance values, invalid option combinations), Remove x3, RemoveKeyed x2, AddModules}; after every step Contains / ContainsKeyed / Count / ToSlice are compared with the reference registry and a rejected call must leave the deep dump of the collection unchanged; in every state the collection is Built (Build must not change the dump), no constructor of a removed / rejected registration may have run, the whole identity universe is probed against the model, then one of 6 further mutations is applied to the collection and the SAME provider must answer identically. plus every sequence to depth 5 (6) over the reduced alphabet {Add plain / grouped / keyed P0, Add P1, Remove(P0), Remove(P1), RemoveKeyed(P0,k)} (group members registered around removals). distinct = distinct first operations x depth (states counted separately).",
+		Rule:   "every sequence to depth 3 (quick) / 4 (thorough) over a 25-operation alphabet {Add{Singleton,Scoped,Transient} of 19 forms (incl. registrations rejected for a reserved type found at a later output of a grouped batch) (incl. registrations that collide with themselves) over a 6-type pool (plain, keyed, grouped, two-return colliding / not colliding, result objects colliding at their second field, aliases, instance values, invalid option combinations), Remove x3, RemoveKeyed x2, AddModules}; after every step Contains / ContainsKeyed / Count / ToSlice are compared with the reference registry and a rejected call must leave the deep dump of the collection unchanged; in every state the collection is Built (Build must not change the dump), no constructor of a removed / rejected registration may have run, the whole identity universe is probed against the model, then one of 6 further mutations is applied to the collection and the SAME provider must answer identically. plus every sequence to depth 5 (6) over the reduced alphabet {Add plain / grouped / keyed P0, Add P1, Remove(P0), Remove(P1), RemoveKeyed(P0,k)} (group members registered around removals). distinct = distinct first operations x depth (states counted separately).",
 		Assume: []string{"Count/ToSlice count one entry per registered identity (a two-return constructor contributes two)", "the analyzer cache and the mutex are excluded from the dump (not observable)"},
 		Jobs: func(tier string) []mc.Job {
 			depth := 3
